@@ -28,7 +28,7 @@ def worker(args):
     rc, o = sh(["git", "-C", wt, "apply", "--whitespace=nowarn", f])
     if rc != 0:
         return name, {"error": "does not apply: " + o[-300:]}
-    env = dict(os.environ, VERIF_REPO=wt, VERIF_OUT=out, RAYON_NUM_THREADS=os.environ.get("MUT_THREADS", "4"))
+    env = dict(os.environ, VERIF_REPO=wt, VERIF_OUT=out, VERIF_SNAPSHOT_SRC="1", RAYON_NUM_THREADS=os.environ.get("MUT_THREADS", "4"))
     t0 = time.time()
     p = subprocess.run("cargo test --workspace --no-fail-fast --offline 2>&1 | grep -E '^test result|error(\\[|:)' ", cwd=wt, shell=True, stdout=subprocess.PIPE, stderr=subprocess.STDOUT, text=True)
     suite_ok = "FAILED" not in p.stdout and "error" not in p.stdout and "33 passed" in p.stdout
